@@ -140,6 +140,12 @@ def retry_hangs(cases, impl):
         again = harness([cases[i].hline(i) for i in some], 12000, jobs=8)
         for i in some:
             impl[str(i)] = again.get(str(i), "HANG")
+        # exponential backtracking is slow, not non-terminating: a last, long deadline for the first few survivors
+        still = [i for i in some if impl[str(i)] == "HANG"][:4]
+        if still:
+            last = harness([cases[i].hline(i) for i in still], 90000, jobs=4)
+            for i in still:
+                impl[str(i)] = last.get(str(i), "HANG")
 
 
 # ------------------------------------------------------------------------------------------------
